@@ -25,6 +25,7 @@ from typing import Callable
 from numbers import Number
 
 import votelib.component.core
+import votelib.persist
 
 
 DIVISORS = {}
@@ -122,6 +123,9 @@ def modified_first_coef(divisor_fx: Callable[[int], Number],
     if not isinstance(first_coef, (int, Fraction)):
         first_coef = Fraction(*first_coef.as_integer_ratio())
 
+    @votelib.persist.factory_serialization(
+        modified_first_coef, divisor_fx=divisor_fx, first_coef=first_coef
+    )
     def _modified_divisor(order: int) -> Number:
         return divisor_fx(order) if order > 0 else first_coef
 
